@@ -65,6 +65,14 @@ def run_check(pid, prop, tier, seed):
     cov["pinned_theorems"] = pinned
     cov["print_assumptions"] = {"closed_under_global_context": closed, "axioms": axioms}
     cov["checker_cmd"] = "make -C coq Properties/%s.vo (coqc 8.16.1, full .vo build) + Print Assumptions + vernacular grep" % pid
+    if tier == "thorough" and okp:
+        # independent re-check of the compiled property file and everything it depends on
+        okall, _ = C.coq_make()
+        rc, out = C.sh(["timeout", "3000", "coqchk", "-silent", "-o"] + sum([["-Q", d, "ZK"] for d in ("Base", "Hash", "Model", "Proofs", "Generated", "Properties")], []) + ["ZK." + pid], cwd=C.COQ)
+        m = re.search(r"\* Axioms:\s*(.*?)\n\s*\n", out, re.S)
+        cov["coqchk"] = {"exit": rc, "axioms": (m.group(1).strip() if m else "?")}
+        if rc != 0 or not m or m.group(1).strip() != "<none>":
+            broken.append("coqchk on ZK.%s: exit %d, axioms %s" % (pid, rc, cov["coqchk"]["axioms"][:200]))
     cov["trusted_base"] = (TRUSTED_BASE_CL if getattr(prop, "CL03", False) else TRUSTED_BASE) + getattr(prop, "EXTRA_TRUST", [])
     # ---- 2. builds
     okh, outh = C.build_harness(cl03=True)
